@@ -54,6 +54,19 @@ CLAIMS = {
              'over the fragment sequence (induction on the number of fragments) is meta-level on top of the mechanised step.',
         technique='contract-based deductive verification: generator/loop-invariant VCs from the real AST with ghost yield summary, z3',
         design='5/C03'),
+    'C14': dict(
+        level='proof',
+        text='Decision logic of the lease mechanism, from the real ASTs, for all grants, time-to-live values, counters, clock values and '
+             'ARBITRARY queue contents (symbolic FIFO model): a DefinedLease answers True iff not expired and within the grant (ghost '
+             'used <= granted invariant); send_request puts a request frame of each of the four types on the wire iff the lease allows, '
+             'otherwise at the tail of the retention queue or raises QueueFull (never both, never lost silently); the initial lease grants '
+             'nothing; handle_lease installs exactly the announced lease and its drain loop (inductive invariant + variant) moves a prefix '
+             'of the retained frames, in order, one unit each, stopping exactly when empty or refused; send_lease announces exactly the '
+             'published grant and ttl in ms; to_milliseconds is exact (after the fix recorded in known_findings.json).',
+        note=TRUST + 'Wall clock replaced by a ghost clock that does not advance within one atomic segment; asyncio.Queue is an assumed '
+             'FIFO model. Floats in to_milliseconds treated as exact reals.',
+        technique='contract-based deductive verification: VCs from the real AST with ghost clock/credit and a symbolic FIFO queue, z3',
+        design='5/C14'),
 }
 
 NOT_YET = 'contracts for this property are not built yet'
